@@ -25,7 +25,7 @@ def subtree_objects(U: Universe, node: Any) -> list[Any]:
             v = getattr(n, f.name)
             if v is None:
                 continue
-            if isinstance(v, tuple):
+            if isinstance(v, (tuple, list)):  # a list given for a tuple field is accepted while type checks are off
                 kids.extend(v)
             else:
                 kids.append(v)
